@@ -30,12 +30,14 @@ pub enum Recipe {
     Saturated,
     /// saturated through random removals and refills (displaced elements, interleaved tombstones)
     SaturatedRandom,
+    /// a randomly drawn control-byte layout (see states::layout_plan)
+    Layout,
     /// contiguous run with holes: tombstones present, room left
     Tombstoned,
     /// a seeded random history
     History,
 }
-pub const RECIPES: [Recipe; 7] = [Recipe::Fresh, Recipe::Small, Recipe::Full, Recipe::Saturated, Recipe::SaturatedRandom, Recipe::Tombstoned, Recipe::History];
+pub const RECIPES: [Recipe; 8] = [Recipe::Fresh, Recipe::Small, Recipe::Full, Recipe::Saturated, Recipe::SaturatedRandom, Recipe::Layout, Recipe::Tombstoned, Recipe::History];
 
 #[derive(Clone, Debug)]
 pub struct StateSpec {
@@ -134,6 +136,16 @@ pub fn build_state<K: Elem, V: Elem>(s: &StateSpec, c: &mut Ctx) -> MapDrv<K, V>
                     next += 1;
                     guard += 1;
                 }
+            }
+        }
+        Recipe::Layout => {
+            let lp = crate::states::layout_plan(&mut rng, universe);
+            d.map = Map::with_capacity_and_hasher_in(lp.capacity, bh, CkAlloc);
+            for id in &lp.inserts {
+                put(&mut d, *id, &mut rng);
+            }
+            for id in &lp.deletes {
+                del(&mut d, *id);
             }
         }
         Recipe::Tombstoned => {
@@ -524,6 +536,7 @@ pub fn scenario<K: Elem, V: Elem>(c: &mut Ctx, idx: u64, rng: &mut Rng) {
     let recipe = RECIPES[((crate::util::mix(idx) / C04_PAIRS.len() as u64) % RECIPES.len() as u64) as usize];
     // saturation needs clustered hashes to leave tombstones
     let plan = match recipe {
+        Recipe::Layout => *rng.pick(&[Plan::Ident, Plan::Ident, Plan::IdentOneTag]),
         Recipe::Saturated | Recipe::SaturatedRandom | Recipe::Tombstoned if rng.chance(3, 4) => *rng.pick(&[Plan::Ident, Plan::IdentOneTag, Plan::Zero, Plan::SamePos, Plan::Palette(1, 3), Plan::Palette(3, 1), Plan::Palette(4, 4), Plan::Stride, Plan::Tail]),
         _ => pick_plan(rng),
     };
